@@ -182,10 +182,41 @@ Proof.
   apply uniq_lookup. exact EU.
 Qed.
 
+(* ---------- block rule files ---------- *)
+Lemma frule_ok_spec r : frule_ok r = true -> spec_rule r = Some (fconv r).
+Proof.
+  unfold frule_ok, spec_rule, fconv, ci_cmd. rewrite !andb_true_iff. intros [[[[Hc _] _] Hcmd] _].
+  rewrite Hc. apply orb_true_iff in Hcmd. destruct Hcmd as [H|H]; apply bytes_eqb_eq in H; rewrite H; reflexivity.
+Qed.
+Lemma flist_ok_spec l : forallb frule_ok l = true -> all_some (map spec_rule l) = Some (map fconv l).
+Proof.
+  induction l as [|r l IH]; [reflexivity|]. cbn [forallb map all_some]. rewrite andb_true_iff. intros [H1 H2].
+  rewrite (frule_ok_spec r H1), (IH H2). reflexivity.
+Qed.
+Lemma ffile_ok_spec f : ffile_ok f = true -> spec_table f = Some (ftable f).
+Proof.
+  destruct f as [g p]. unfold ffile_ok, spec_table, ftable, spec_list, flist_ok. cbn [fst snd]. rewrite andb_true_iff. intros [Hg Hp].
+  destruct g as [g|]; destruct p as [p|]; cbn [option_map];
+    repeat match goal with H : _ && _ = true |- _ => apply andb_true_iff in H; destruct H as [H _] end;
+    rewrite ?(flist_ok_spec g Hg), ?(flist_ok_spec p Hp); reflexivity.
+Qed.
+Lemma block_steps_prop files : forall tbl,
+  prop_steps tbl files (map (fun lc => VL [vbool (fst lc); vbool (snd lc)]) (block_steps tbl files)) = true.
+Proof.
+  induction files as [|f r IH]; intros tbl; [reflexivity|]. cbn [block_steps map prop_steps fst snd].
+  destruct (ffile_ok f) eqn:Eok.
+  - cbn [vbool VT]. change (b 1) with true. cbv iota. rewrite (ffile_ok_spec f Eok).
+    destruct (product_block (fst (ftable f)) (snd (ftable f))); cbn [vbool VT VF]; [change (b 1) with true|change (b 0) with false];
+      cbn [Bool.eqb andb]; apply IH.
+  - cbn [vbool VF]. change (b 0) with false. cbv iota.
+    destruct (product_block (fst tbl) (snd tbl)); cbn [vbool VT VF]; [change (b 1) with true|change (b 0) with false];
+      cbn [Bool.eqb andb]; apply IH.
+Qed.
+
 (* central theorem on typed operations *)
 Theorem prop_op_of_model : forall x, wf_op x = true -> kf_op x = 0 -> prop_op x (run_op x) = true.
 Proof.
-  intros [auth decoded users route|auth mal alg c now keys route|he expires checksum digest now|inT g p] Hwf Hkf;
+  intros [auth decoded users route|auth mal alg c now keys route|he expires checksum digest now|inT g p|files] Hwf Hkf;
     cbn [prop_op run_op wf_op kf_op] in *.
   - rewrite (basic_valid_accept auth decoded users Hwf). apply is_verdict_refl.
   - destruct (covered route); cbn [negb orb andb] in *; [|apply is_verdict_refl].
@@ -202,6 +233,7 @@ Proof.
       * cbn [Bool.eqb andb]. apply andb_true_iff. split; apply Z.leb_le; lia.
   - destruct (block_refuses g p) as [_ H]. rewrite <- H. unfold global_block.
     destruct inT; destruct (product_block g p); reflexivity.
+  - apply block_steps_prop.
 Qed.
 Theorem prop_C51_of_model : forall i, wf_C51 i = true -> kf_C51 i = 0 -> prop_C51 i (run_C51 i) = true.
 Proof.
